@@ -81,3 +81,48 @@ def sampleDefault (E : Env Float) (F : Forest Float) (convs : List (Conv Float))
   let cl ← solve ctx maxWeight mergeThresh alpha
   let t ← buildTable E F convs isIntegral ctx.entropy.toList 0.7 cl streams
   return (cl, t)
+
+/-! ## `syndiffix/clustering/sampling.py`: the plan of a large table is searched on a row sample -/
+
+/-- `should_sample(forest, sample_size)` — integer arithmetic -/
+def shouldSample (dims numRows sampleSize : Nat) : Bool :=
+  if sampleSize ≥ numRows then false
+  else
+    let sampled2dimWork := dims * dims * sampleSize
+    let full2dimWork := (numRows * dims * 3) / 2
+    decide (dims * dims * numRows > (sampled2dimWork + full2dimWork) * 2)
+
+/-- the arguments `sample_forest` hands to `Forest(...)`: the picked rows (values and ids) in the order picked, the sampling
+suppression parameters `(low_threshold 2, layer_sd 0.5, low_mean_gap 1.0)`, no count noise; salt, flattening intervals,
+bucketization parameters and the counter kind unchanged -/
+def sampleInput (inp : ForestIn Float) (picked : List Nat) : ForestIn Float :=
+  { inp with
+    raw := (picked.map fun i => inp.raw[i]!).toArray
+    pids := (picked.map fun i => inp.pids[i]!).toArray
+    ap := { inp.ap with supp := ⟨2, 0.5, 1.0⟩, noiseSd := 0.0 } }
+
+/-- `rng.sample(range(n), k)` hands back `k` distinct indices below `n`; anything else does not fit the stream -/
+def validPick (n k : Nat) (picked : List Nat) : Bool :=
+  picked.length == k && picked.all (· < n) && picked.eraseDups.length == picked.length
+
+/-- `Synthesizer(df, clustering=DefaultClustering(main_column, sample_size, max_weight, merge_threshold, solver_alpha)).sample()` up to the
+`DataFrame`, sub-sampling included: when `should_sample` says so, one `random()` of the forest's main RNG seeds a derived generator whose
+`sample(range(n), sample_size)` picks the rows (`picked`, recorded), a second forest is built on them with the sampling parameters, the
+measures are taken on it and the plan is searched on *its* generator (`planStream`, a fresh `Random(0)` in the implementation); the table
+is then assembled from the full forest on the main RNG. Otherwise as `sampleDefault`. -/
+def sampleDefaultSampled (E : Env Float) (inp : ForestIn Float) (F : Forest Float) (convs : List (Conv Float)) (isIntegral : List Bool)
+    (main : Option Nat) (sampleSize : Nat) (maxWeight mergeThresh alpha : Float) (picked : List Nat) (planStream : List (Draw Float))
+    (streams : List (List Nat × List (Draw Float))) : GM Float (Clusters × MTable (Cell Float) Float) := do
+  if shouldSample F.names.length inp.raw.size sampleSize then do
+    let _ ← drawUnit
+    if validPick inp.raw.size sampleSize picked then
+      match Forest.init E (sampleInput inp picked) with
+      | .error e => throw e
+      | .ok Fs =>
+        match (solve (clusteringContext E Fs main) maxWeight mergeThresh alpha).run planStream with
+        | .error e => throw e
+        | .ok (cl, _) => do
+          let t ← buildTable E F convs isIntegral (clusteringContext E Fs main).entropy.toList 0.7 cl streams
+          return (cl, t)
+    else throw "stream"
+  else sampleDefault E F convs isIntegral main maxWeight mergeThresh alpha streams
